@@ -92,7 +92,7 @@ func init() {
 		},
 		Cases: func(tier string) int {
 			if tier == "thorough" {
-				return 36000
+				return 150000
 			}
 			return 3000
 		},
